@@ -162,6 +162,9 @@ func c02Run(c *fw.Ctx) {
 	var jobs []genrun.Job
 	var meta []c02Meta
 	for _, g := range gs {
+		if g.xg.Twins > 0 {
+			c.Count("grammars_with_twin_lists", 1)
+		}
 		if g.xg.FixWS {
 			c.Count("grammars_fixWhitespace", 1)
 		} else {
@@ -269,6 +272,6 @@ func init() {
 		Run:              func(c *fw.Ctx) { withHookMonitor(c, func() { c02Run(c) }) },
 		CPUBudget:        900,
 		MinNontrivial:    func(string) int { return 20 },
-		RequiredCounters: []string{"hook_compiles_monitored", "events_compared", "empty_nodes_compared", "grammars_fixWhitespace", "grammars_plain_ranges"},
+		RequiredCounters: []string{"grammars_with_twin_lists", "hook_compiles_monitored", "events_compared", "empty_nodes_compared", "grammars_fixWhitespace", "grammars_plain_ranges"},
 	})
 }
